@@ -56,7 +56,20 @@ type SpecFunc struct {
 	Line      int
 }
 
+type LemmaStep struct {
+	Kind    string // assume, call, conclude
+	Label   string
+	Text    string
+	E       Expr
+	Results []string // call: result variable names
+	Callee  string   // call: contract name (pkg-local) or pkgrel:Name
+	Args    []Expr
+	Line    int
+}
+
 type Lemma struct {
+	Vars   []QVar
+	Steps  []*LemmaStep
 	Name   string
 	Arith  string
 	Text   string
@@ -80,7 +93,7 @@ type ContractFile struct {
 	NClauses int
 }
 
-var keywordRe = regexp.MustCompile(`^(func|extern|spec|pred|lemma|axiom|requires|ensures|invariant|decreases|loop|modifies|assert|trusted)\b`)
+var keywordRe = regexp.MustCompile(`^(func|extern|spec|pred|lemma|axiom|requires|ensures|invariant|decreases|loop|modifies|assert|trusted|vars|assume|call|conclude)\b`)
 var labelRe = regexp.MustCompile(`^([A-Za-z_][A-Za-z0-9_.]*):([^:].*)$`)
 
 func ParseContractFile(path, pkg string) (*ContractFile, error) {
@@ -114,6 +127,7 @@ func ParseContractFile(path, pkg string) (*ContractFile, error) {
 	}
 	var cur *FuncContract
 	var curLoop *LoopContract
+	var curLemma *Lemma
 	parseClause := func(kind, rest string, line int) (*Clause, error) {
 		c := &Clause{Kind: kind, Line: line}
 		rest = strings.TrimSpace(rest)
@@ -141,6 +155,7 @@ func ParseContractFile(path, pkg string) (*ContractFile, error) {
 			}
 			cur = &FuncContract{Name: f[0], Pkg: pkg, Arith: "int", File: path, Line: it.line, Options: map[string]string{}, Extern: kw == "extern"}
 			curLoop = nil
+			curLemma = nil
 			for i := 1; i < len(f); i++ {
 				switch f[i] {
 				case "arith":
@@ -241,12 +256,15 @@ func ParseContractFile(path, pkg string) (*ContractFile, error) {
 			}
 			cf.Specs[sf.Name] = sf
 			cf.SpecOrder = append(cf.SpecOrder, sf.Name)
-			cur, curLoop = nil, nil
+			cur, curLoop, curLemma = nil, nil, nil
 		case "lemma", "axiom":
 			// lemma name [arith bv] [uses a,b]: expr
 			i := strings.Index(rest, ":")
+			structured := false
 			if i < 0 {
-				return nil, fmt.Errorf("%s:%d: lemma needs ':'", path, it.line)
+				structured = true
+				i = len(rest)
+				rest += ":"
 			}
 			head := strings.Fields(rest[:i])
 			l := &Lemma{Name: head[0], Arith: "int", Text: strings.TrimSpace(rest[i+1:]), Axiom: kw == "axiom", Line: it.line, Pkg: pkg, Opts: map[string]string{}}
@@ -265,15 +283,67 @@ func ParseContractFile(path, pkg string) (*ContractFile, error) {
 					}
 				}
 			}
-			e, err := ParseExpr(l.Text)
-			if err != nil {
-				return nil, fmt.Errorf("%s:%d: %v", path, it.line, err)
+			if !structured {
+				e, err := ParseExpr(l.Text)
+				if err != nil {
+					return nil, fmt.Errorf("%s:%d: %v", path, it.line, err)
+				}
+				l.E = e
 			}
-			l.E = e
+			curLemma = l
 			cf.Lemmas[l.Name] = l
 			cf.LemmaOrder = append(cf.LemmaOrder, l.Name)
 			cf.NClauses++
 			cur, curLoop = nil, nil
+		case "vars":
+			if curLemma == nil {
+				return nil, fmt.Errorf("%s:%d: vars outside lemma", path, it.line)
+			}
+			for _, p := range strings.Split(rest, ",") {
+				f := strings.Fields(strings.TrimSpace(p))
+				if len(f) != 2 {
+					return nil, fmt.Errorf("%s:%d: vars: want 'name type'", path, it.line)
+				}
+				te, err := parseTypeString(f[1])
+				if err != nil {
+					return nil, fmt.Errorf("%s:%d: %v", path, it.line, err)
+				}
+				curLemma.Vars = append(curLemma.Vars, QVar{Name: f[0], T: te})
+			}
+		case "assume", "conclude":
+			if curLemma == nil {
+				return nil, fmt.Errorf("%s:%d: %s outside lemma", path, it.line, kw)
+			}
+			c, err := parseClause(kw, rest, it.line)
+			if err != nil {
+				return nil, err
+			}
+			curLemma.Steps = append(curLemma.Steps, &LemmaStep{Kind: kw, Label: c.Label, Text: c.Text, E: c.E, Line: it.line})
+		case "call":
+			if curLemma == nil {
+				return nil, fmt.Errorf("%s:%d: call outside lemma", path, it.line)
+			}
+			// call r1, r2 := F(args)
+			st := &LemmaStep{Kind: "call", Text: rest, Line: it.line}
+			rhs := rest
+			if k := strings.Index(rest, ":="); k >= 0 {
+				for _, r := range strings.Split(rest[:k], ",") {
+					st.Results = append(st.Results, strings.TrimSpace(r))
+				}
+				rhs = strings.TrimSpace(rest[k+2:])
+			}
+			e, err := ParseExpr(rhs)
+			if err != nil {
+				return nil, fmt.Errorf("%s:%d: %v", path, it.line, err)
+			}
+			ce, ok := e.(*ECall)
+			if !ok {
+				return nil, fmt.Errorf("%s:%d: call needs a function application", path, it.line)
+			}
+			st.Callee = strings.ReplaceAll(ce.Fun.String(), " ", "")
+			st.Args = ce.Args
+			curLemma.Steps = append(curLemma.Steps, st)
+			cf.NClauses++
 		}
 	}
 	return cf, nil
